@@ -542,6 +542,23 @@ int main(int argc, char** argv)
          for (int ord : { 0, 1, 2 })
             if (opt.mine(job++)) long_history(mode, deep ? 4096 : 1024, ord);
    }
+   // volume: enough distinct spellings to take the string storage behind the identifiers through several pools; every
+   // identifier must still be THE identifier of its spelling afterwards (one per spelling, spelling intact)
+   if (opt.shard == 1 % opt.shards and not opt.expired()) {
+      const int N = deep ? 200000 : 70000;
+      ipr::impl::Lexicon lex;
+      std::vector<const ipr::Identifier*> ids;
+      auto spelled = [](int i) { std::u8string w = u8"identifier_"; for (int k = 0; k < 6; ++k) w += char8_t('a' + (i >> (4 * k)) % 16); w.append(std::size_t(i % 19), u8'_'); return w; };
+      for (int i = 0; i < N; ++i) { ids.push_back(&lex.get_identifier(spelled(i))); rep.count("transitions"); }
+      for (int i = 0; i < N; ++i) {
+         auto w = spelled(i);
+         rep.count("transitions");
+         if (ids[std::size_t(i)]->string().characters() != std::u8string_view(w)) { rep.violation("C04:identifier:spelling-altered", N, "an Identifier obtained earlier no longer carries its spelling after " + std::to_string(N) + " distinct identifiers", vf::JObj{}.str("pass", "C04").num("volume", N).raw("ops", "[]").done()); break; }
+         if (&lex.get_identifier(w) != ids[std::size_t(i)]) { rep.violation("C04:identifier:two-nodes-one-spelling", N, "asking again for identifier #" + std::to_string(i) + " of " + std::to_string(N) + " yields a second Identifier with that spelling", vf::JObj{}.str("pass", "C04").num("volume", N).raw("ops", "[]").done()); break; }
+      }
+      rep.count("states", N);
+      rep.count("traces");
+   }
    if (opt.shard == 0) {
       World w;
       rep.info("bounds", vf::JObj{}.num("full_alphabet_at_step_1", (long long) alphabet(w, 1).size()).num("compact_alphabet_at_step_1", (long long) alphabet(w, 0).size())
